@@ -47,10 +47,10 @@ class World:
             return ('V', t.name, b)
         if isinstance(t, tp.ParameterizedType):
             self._snap_constructor(t.t_constructor, _depth)
-            return ('P', t.name, tuple(self.snap(a, _depth + 1) for a in t.type_args))
+            return ('P', _gname(t.t_constructor), tuple(self.snap(a, _depth + 1) for a in t.type_args))
         if isinstance(t, tp.TypeConstructor):
             self._snap_constructor(t, _depth)
-            return ('C', t.name)
+            return ('C', _gname(t))
         if isinstance(t, tp.Builtin):
             k = ('B', type(t).__name__, t.name)
             if k not in self.supers:
@@ -67,18 +67,19 @@ class World:
         return k
 
     def _snap_constructor(self, c, _depth):
-        if c.name in self.generic:
+        name = _gname(c)
+        if name in self.generic:
             return
-        self.generic[c.name] = None
+        self.generic[name] = None
         params = []
         for p in c.type_parameters:
             params.append((p.name, p.variance.value, None))
-        self.generic[c.name] = (tuple(params), ())
+        self.generic[name] = (tuple(params), ())
         params = tuple((p.name, p.variance.value,
                         self.snap(p.bound, _depth + 1) if p.bound is not None else None)
                        for p in c.type_parameters)
         sups = tuple(self.snap(s, _depth + 1) for s in c.supertypes)
-        self.generic[c.name] = (params, sups)
+        self.generic[name] = (params, sups)
 
     # ------------------------------------------------------------ structure
     def subst(self, t, m):
@@ -287,6 +288,14 @@ class World:
         return True
 
 
+def _gname(c):
+    """identity of a generic class: its name; built-in constructor classes (kotlin Array vs the specialised
+    arrays, both named "Array") are told apart by their class, as the implementation's == does"""
+    if type(c) is tp.TypeConstructor:
+        return c.name
+    return '%s#%s' % (c.name, type(c).__name__)
+
+
 def _is_primitive_data(t):
     return bool(getattr(t, 'primitive', False))
 
@@ -298,11 +307,11 @@ def show(t):
     if k == 'N':
         return 'Nothing'
     if k in ('S', 'C'):
-        return t[1]
+        return t[1].split('#')[0]
     if k == 'B':
         return t[2]
     if k == 'V':
         return t[1]
     if k == 'W':
         return '*' if t[2] is None else {0: '', 1: 'out ', 2: 'in '}[t[1]] + show(t[2])
-    return '%s<%s>' % (t[1], ', '.join(show(a) for a in t[2]))
+    return '%s<%s>' % (t[1].split('#')[0], ', '.join(show(a) for a in t[2]))
